@@ -82,6 +82,8 @@ type vfC06Relay struct {
 	ReadBuf   int    `json:"read_buf"`
 	LateRdMs  int    `json:"late_reader_ms"` // fast open only: the client starts reading this late
 	StartMs   int    `json:"start_ms"`
+	Round     int    `json:"round,omitempty"` // churn worlds: relays of round r start when round r-1 is over
+	Role      string `json:"role,omitempty"`  // churn worlds: "A" ends one direction early, "B" starts in A's teardown window
 	Seed      int64  `json:"seed"`
 }
 
@@ -96,7 +98,8 @@ type vfC06User struct {
 
 type vfC06Case struct {
 	CaseID     string       `json:"case_id"`
-	Kind       string       `json:"kind"` // exact | parallel
+	Kind       string       `json:"kind"`                           // exact | parallel | churn
+	EvHoldMs   int          `json:"event_logger_hold_ms,omitempty"` // churn: EventLogger.TCPError of an A relay takes this long
 	Salt       uint64       `json:"salt"`
 	LatencyMs  int          `json:"latency_ms"`
 	LossPct    int          `json:"loss_pct"`
@@ -307,6 +310,39 @@ func vfC06Gen(k *vfKit, caseID, kind string, par int) vfC06Case {
 	return c
 }
 
+// vfC06GenChurn builds a "buffer churn" world: rounds back to back on ONE server. In every round relay A
+// (user 0) has its target half-close (EOF after a few bytes) while A's client keeps uploading, so
+// the relay function returns with A's other direction still running; the server then spends
+// EvHoldMs in EventLogger.TCPError (a slow event logger, harness-owned fake) before it closes A's
+// two ends. In that window 2..3 relays B of OTHER users start and stream both ways at once, with a
+// traffic logger that takes 0.3..2 ms per chunk (so B always has a chunk between Read and Write).
+// Anything the server shares between a relay that is being torn down and a relay that starts
+// (pooled buffers, per-connection state) shows up as foreign bytes at B's or A's receiver.
+func vfC06GenChurn(k *vfKit, caseID string) vfC06Case {
+	r := k.Rand(caseID)
+	c := vfC06Case{CaseID: caseID, Kind: "churn", Salt: r.Uint64(), LatencyMs: 1 + r.Intn(4), Logger: true,
+		LogDelayUs: 300 + r.Intn(1700), EvHoldMs: 80 + r.Intn(220)}
+	rounds, nb := 5+r.Intn(4), 2+r.Intn(2)
+	for u := 0; u <= nb; u++ {
+		c.Users = append(c.Users, vfC06User{Idx: u, FastOpen: r.Intn(2) == 0})
+	}
+	for rd := 0; rd < rounds; rd++ {
+		a := vfC06Relay{Idx: len(c.Relays), User: 0, Mode: "t_halfclose", Round: rd, Role: "A", Seed: r.Int63(),
+			Up: 1 << 20, Down: r.Intn(1500), UpChunk: 1000 + r.Intn(5000), DownChunk: 1 + r.Intn(1500),
+			UpPaceUs: 500 + r.Intn(1500), ReadBuf: 1 + r.Intn(64<<10)}
+		c.Users[0].Relays = append(c.Users[0].Relays, a.Idx)
+		c.Relays = append(c.Relays, a)
+		for j := 1; j <= nb; j++ {
+			b := vfC06Relay{Idx: len(c.Relays), User: j, Mode: "quiesce", Round: rd, Role: "B", Seed: r.Int63(),
+				Up: 8000 + r.Intn(72_000), Down: 8000 + r.Intn(72_000), UpChunk: 2000 + r.Intn(30_000), DownChunk: 2000 + r.Intn(30_000),
+				UpPaceUs: r.Intn(500), DownPace: r.Intn(500), ReadBuf: 4096 + r.Intn(60<<10), StartMs: r.Intn(10)}
+			c.Users[j].Relays = append(c.Users[j].Relays, b.Idx)
+			c.Relays = append(c.Relays, b)
+		}
+	}
+	return c
+}
+
 // ---------------------------------------------------------------- offset-coded content
 
 func vfC06Mix(z uint64) uint64 {
@@ -361,8 +397,17 @@ type vfC06RS struct {
 	waits      []vfC06Waiter
 	scratch    [2][]byte
 	stuckWrite bool
+	gateMissed bool
 	dials      int
-	errAfter   int64 // t_error: server-side Read fails once it took this many bytes; -1 = never
+	errAfter   int64         // t_error: server-side Read fails once it took this many bytes; -1 = never
+	eofAfter   int64         // t_halfclose: server-side Read returns EOF once it took this many bytes (writes still accepted); -1 = never
+	gate       chan struct{} // churn: do not start before this is closed
+	winOpen    chan struct{} // churn, role A: closed when the server entered EventLogger.TCPError for this relay
+	winOnce    sync.Once
+	bDone      chan struct{} // churn, role A: one token per finished B relay of the round
+	nB         int
+	roundDone  chan struct{} // churn, role A: closed when the round is over
+	tellA      chan struct{} // churn, role B: A's bDone
 
 	dialed     chan struct{} // closed when Outbound.TCP created the target
 	tgtEOF     chan struct{} // closed when the scripted target's read side ended (server closed tConn)
@@ -441,6 +486,16 @@ func (c *vfC06Target) Read(p []byte) (int, error) {
 	rs.mu.Lock()
 	ea, took := rs.errAfter, rs.srvTook
 	rs.mu.Unlock()
+	if eo := rs.eofAfter; eo >= 0 {
+		left := eo - took
+		if left <= 0 {
+			rs.log.AddT("tgt_halfclose", rs.key, 0, time.Now().UnixNano(), nil)
+			return 0, io.EOF
+		}
+		if int64(len(p)) > left {
+			p = p[:left]
+		}
+	}
 	if ea >= 0 {
 		left := ea - took
 		if left <= 0 {
@@ -528,6 +583,21 @@ func vfC06StuckRelays() (int, string) {
 		}
 	}
 	return n, sample
+}
+
+// vfC06Events is the kit's event logger plus a scripted delay: TCPError of a churn-world A relay
+// announces the teardown window and then takes EvHoldMs of virtual time (a slow event logger).
+type vfC06Events struct {
+	server.EventLogger
+	run *vfC06Run
+}
+
+func (e *vfC06Events) TCPError(addr net.Addr, id, reqAddr string, err error) {
+	e.EventLogger.TCPError(addr, id, reqAddr, err)
+	if rs := e.run.byAddr[reqAddr]; rs != nil && rs.winOpen != nil {
+		rs.winOnce.Do(func() { close(rs.winOpen) })
+		time.Sleep(time.Duration(e.run.c.EvHoldMs) * time.Millisecond)
+	}
 }
 
 // vfC06Group replaces sync.WaitGroup inside bubbles. With go1.25.0 a WaitGroup.Wait inside a
@@ -738,6 +808,23 @@ func (run *vfC06Run) drive(rs *vfC06RS) {
 	u := run.users[sp.User]
 	r := rand.New(rand.NewSource(sp.Seed))
 	rUp, rDown := rand.New(rand.NewSource(sp.Seed+1)), rand.New(rand.NewSource(sp.Seed+2))
+	if rs.gate != nil { // churn worlds; the cap only matters if a window never opens
+		t := time.NewTimer(120 * time.Second)
+		select {
+		case <-rs.gate:
+		case <-t.C:
+			rs.mu.Lock()
+			rs.gateMissed = true
+			rs.mu.Unlock()
+		}
+		t.Stop()
+	}
+	if rs.tellA != nil {
+		defer func() { rs.tellA <- struct{}{} }()
+	}
+	if rs.roundDone != nil {
+		defer close(rs.roundDone)
+	}
 	time.Sleep(time.Duration(sp.StartMs) * time.Millisecond)
 
 	conn, err := u.cl.TCP(rs.addr)
@@ -875,6 +962,31 @@ func (run *vfC06Run) drive(rs *vfC06RS) {
 			run.closeTarget(rs)
 		}
 		wg.Wait()
+	case "t_halfclose":
+		// the client keeps uploading; the target sends a little and half-closes (EOF for the server's
+		// reads, writes still accepted); the upload ends when the server closes the stream
+		wg.Go(func() { run.write(rs, vfC06Up, conn, 0, int64(sp.Up), rUp, -1) })
+		if run.wait(u, rs.dialed) == "ok" {
+			run.write(rs, vfC06Down, rs.harness, 0, int64(sp.Down), rDown, -1)
+		}
+		if rs.bDone != nil {
+			t := time.NewTimer(240 * time.Second)
+			for i := 0; i < rs.nB; i++ {
+				select {
+				case <-rs.bDone:
+				case <-t.C:
+				}
+			}
+			t.Stop()
+		}
+		if !wg.WaitFor(60 * time.Second) {
+			rs.mu.Lock()
+			rs.stuckWrite = true
+			rs.mu.Unlock()
+			_ = conn.SetWriteDeadline(time.Unix(1, 0))
+			wg.Wait()
+		}
+		run.closeClient(rs)
 	case "t_error":
 		wg.Go(func() { run.write(rs, vfC06Up, conn, 0, int64(sp.Up), rUp, -1) })
 		wg.Go(func() {
@@ -954,6 +1066,9 @@ func vfC06RunCase(t *testing.T, k *vfKit, c vfC06Case) {
 					tl = &vfC06Traffic{vfTraffic: &vfTraffic{}}
 					sc.TrafficLogger = tl
 				}
+				if c.Kind == "churn" && sc.EventLogger != nil {
+					sc.EventLogger = &vfC06Events{EventLogger: sc.EventLogger, run: run}
+				}
 			},
 		})
 		if err != nil {
@@ -973,7 +1088,7 @@ func vfC06RunCase(t *testing.T, k *vfKit, c vfC06Case) {
 		for i := range c.Relays {
 			sp := &c.Relays[i]
 			rs := &vfC06RS{
-				sp: sp, key: "r" + strconv.Itoa(sp.Idx), log: w.Log, errAfter: -1,
+				sp: sp, key: "r" + strconv.Itoa(sp.Idx), log: w.Log, errAfter: -1, eofAfter: -1,
 				addr:   fmt.Sprintf("r%d.u%d.c06.verif:%d", sp.Idx, sp.User, 1000+sp.Idx),
 				keys:   [2]uint64{vfC06Key(c.Salt, sp.Idx, vfC06Up), vfC06Key(c.Salt, sp.Idx, vfC06Down)},
 				dialed: make(chan struct{}), tgtEOF: make(chan struct{}), readerDone: make(chan struct{}),
@@ -982,8 +1097,30 @@ func vfC06RunCase(t *testing.T, k *vfKit, c vfC06Case) {
 			if sp.Mode == "t_error" {
 				rs.errAfter = int64(sp.CutAt)
 			}
+			if sp.Mode == "t_halfclose" {
+				rs.eofAfter = int64(sp.Down)
+			}
 			run.relays = append(run.relays, rs)
 			run.byAddr[rs.addr] = rs
+		}
+		if c.Kind == "churn" { // wire the rounds: A(r) waits for round r-1, B(r,*) wait for A(r)'s teardown window
+			var prev *vfC06RS
+			as := map[int]*vfC06RS{}
+			for _, rs := range run.relays {
+				if rs.sp.Role == "A" {
+					rs.winOpen, rs.roundDone, rs.bDone = make(chan struct{}), make(chan struct{}), make(chan struct{}, 64)
+					if prev != nil {
+						rs.gate = prev.roundDone
+					}
+					prev, as[rs.sp.Round] = rs, rs
+				}
+			}
+			for _, rs := range run.relays {
+				if a := as[rs.sp.Round]; rs.sp.Role == "B" && a != nil {
+					rs.gate, rs.tellA = a.winOpen, a.bDone
+					a.nB++
+				}
+			}
 		}
 		if tl != nil {
 			delay := time.Duration(c.LogDelayUs) * time.Microsecond
@@ -1278,6 +1415,13 @@ func vfC06Judge(k *vfKit, run *vfC06Run, evs []vfEvent) {
 		if rs.stuckWrite {
 			k.Count("obs_client_write_stuck_after_close", 1)
 		}
+		if sp.Role == "B" {
+			if rs.gateMissed {
+				k.Count("churn_window_missed", 1)
+			} else {
+				k.Count("ev_churn_started_in_teardown_window", 1)
+			}
+		}
 		k.Count("ev_relays_judged", 1)
 		rs.mu.Unlock()
 	}
@@ -1434,6 +1578,22 @@ func TestVerifC06Relay(t *testing.T) {
 	var cases []vfC06Case
 	for i := 0; i < n; i++ {
 		cases = append(cases, vfC06Gen(k, fmt.Sprintf("c06x-%d", i), "exact", 1))
+	}
+	vfC06RunAll(t, k, cases)
+}
+
+// TestVerifC06Churn: rounds of "relay A is being torn down with one direction still running while
+// relays B of other users start", back to back on one server. GOMAXPROCS(1) (and no GC inside a
+// bubble, see vfC06RunAll) for this part only: a sync.Pool then hands an object that was just put
+// back to the very next taker, as it does on a busy server.
+func TestVerifC06Churn(t *testing.T) {
+	defer runtime.GOMAXPROCS(runtime.GOMAXPROCS(1))
+	k := vfNewKit(t, "C06", vfC06Part("c06-churn"))
+	defer k.Finish()
+	n := k.N(4, 32)
+	var cases []vfC06Case
+	for i := 0; i < n; i++ {
+		cases = append(cases, vfC06GenChurn(k, fmt.Sprintf("c06c-%d", i)))
 	}
 	vfC06RunAll(t, k, cases)
 }
